@@ -11,16 +11,22 @@ SPEC = {
                   "equal-sized segments except a shorter non-empty last, at most maxGSOSegments segments and at most maxGSOBytes bytes (constants pinned to 65000 / 63 / 127); "
                   "the explicit fuel suffices for every oracle and the call returns whenever the kernel never reports more entries than it was offered. "
                   "The model is tied to udp.batchWriter.WriteBatch by correspondence: every sendFn invocation (slots decoded from iovecs, sockaddr and cmsg), the return "
-                  "value and the GSO flag afterwards are compared, and the executable property is evaluated on the implementation's recorded behaviour.",
+                  "value and the GSO flag afterwards are compared, and the executable property is evaluated on the implementation's recorded behaviour. "
+                  "One level up, batch.SendBatch (overlay/batch/tx_batch.go) is modelled as Commit/Flush histories over the same WriteBatch model: for all histories and oracles "
+                  "every Flush hands over exactly the datagrams committed since the previous Flush (drained whether or not WriteBatch returned an error), no datagram is accepted "
+                  "twice over the whole history, and each Flush reports what the kernel accepted during it; tied by driving the real SendBatch (Reserve/Commit/Flush as "
+                  "listenIn/sendInsideMessage do) over the real batchWriter, datagrams identified by an id in their content.",
     "level_note": "Trusted: Coq kernel; the hand-written model (mirrors planRun's comparisons and WriteBatch's drain/rewind logic; Go ints are unbounded integers, "
                   "sizes stay far below 2^63); the harness/overlay shim; the correspondence is differential testing. sendmmsg's own EINTR/ENOBUFS retry loop sits below "
                   "the sendFn injection point and is not exercised: ENOBUFS is scripted as the error sendFn finally returns. Destination equality is netip.AddrPort equality.",
     "gens": ["gen_writebatch"],
     "build_comp": "writebatch",
     "props": ["props/C26.v"],
-    "corr": ["corr/WriteBatch_corr.v"],
-    "comps": [{"comp": "writebatch", "n_quick": 1500, "n_thorough": 40000}],
-    "trusted": ["model/WriteBatch.v write_batch/plan_run/pack/drain are hand-written mirrors of WriteBatch/planRun (tied by correspondence)",
+    "corr": ["corr/WriteBatch_corr.v", "corr/SendBatch_corr.v"],
+    "comps": [{"comp": "writebatch", "n_quick": 1500, "n_thorough": 40000},
+              {"comp": "sendbatch", "n_quick": 500, "n_thorough": 15000}],
+    "trusted": ["model/SendBatch.v run_ops is a hand-written mirror of SendBatch.Commit/Flush (tied by correspondence, component sendbatch; shares build tag comp_writebatch)",
+                "model/WriteBatch.v write_batch/plan_run/pack/drain are hand-written mirrors of WriteBatch/planRun (tied by correspondence)",
                 "gen/Consts_WriteBatch.v: maxGSOBytes, MaxWriteBatch, gsoMaxSegments before/after 6.9, EIO, ENOBUFS printed from the compiled code",
                 "the shim identifies an iovec with packet i when base pointer and length equal bufs[i]; empty packets are identified through entryEnd/entryPkts and checked to be empty"],
     "assumptions": ["sendmmsg(2) never reports more messages sent than it was given (oracle_ok); needed only for 'the call returns'",
